@@ -241,3 +241,129 @@ pub fn pow_arity() {
     core::mem::forget(r3);
 }
 
+
+// ---------------------------------------------------------------------------------------
+// pow through the typed overloads (hook `verif_funcs::inner::pow`): a call through the
+// two-argument dispatcher does not finish (a heap Vec of two CelValues), so the dispatcher's
+// argument matching for pow is outside the claim; the overload bodies are inside.
+
+#[derive(Clone, Copy)]
+pub enum PowSig {
+    II,
+    IU,
+    UI,
+    UU,
+}
+
+fn pow_call(sig: PowSig, base: u64, exp: u64) -> Result<(bool, u64), ()> {
+    // returns (is_signed_result, raw bits)
+    use rscel::verif_hooks::verif_funcs::inner::pow as p;
+    let r = match sig {
+        PowSig::II => p::ii(base as i64, exp as i64).map(|v| (true, v as u64)),
+        PowSig::IU => p::iu(base as i64, exp).map(|v| (true, v as u64)),
+        PowSig::UI => p::ui(base, exp as i64).map(|v| (false, v)),
+        PowSig::UU => p::uu(base, exp).map(|v| (false, v)),
+    };
+    match r {
+        Ok(v) => Ok(v),
+        Err(e) => {
+            core::mem::forget(e);
+            Err(())
+        }
+    }
+}
+
+fn exp_is_signed(sig: PowSig) -> bool {
+    matches!(sig, PowSig::II | PowSig::UI)
+}
+
+fn base_is_signed(sig: PowSig) -> bool {
+    matches!(sig, PowSig::II | PowSig::IU)
+}
+
+/// exponent validity for ALL exponents: negative or above u32::MAX is an error; 0 and 1 are
+/// exact (x^0 == 1, x^1 == x). Exponents 2..=u32::MAX are in `pow_inner_val`.
+pub fn pow_inner_pred(sig: PowSig) {
+    let base: u64 = any();
+    let exp: u64 = any();
+    let bad = if exp_is_signed(sig) { (exp as i64) < 0 || (exp as i64) > u32::MAX as i64 } else { exp > u32::MAX as u64 };
+    assume(bad || exp <= 1);
+    let r = pow_call(sig, base, exp);
+    witness!(bad, "exponent outside 0..=u32::MAX");
+    witness!(!bad, "exponent 0 or 1");
+    if bad {
+        assert!(r.is_err(), "an integer power with a negative or oversized exponent is an error");
+    } else {
+        let want = if exp == 1 { base } else { 1 };
+        assert!(matches!(r, Ok((_, v)) if v == want), "x^0 == 1 and x^1 == x");
+    }
+}
+
+/// exact power or overflow error for |base| < 2^base_bits, exponent 0..=max_exp
+pub fn pow_inner_val(sig: PowSig, max_exp: u32, base_bits: u32) {
+    let base: u64 = any();
+    let e: u8 = any();
+    assume((e as u32) <= max_exp);
+    if base_is_signed(sig) {
+        let b = base as i64;
+        assume(base_bits >= 64 || (b > -(1i64 << base_bits) && b < (1i64 << base_bits)));
+    } else {
+        assume(base_bits >= 64 || base < (1u64 << base_bits));
+    }
+    let r = pow_call(sig, base, e as u64);
+    witness!(e as u32 == max_exp, "largest exponent");
+    if base_is_signed(sig) {
+        match (base as i64).checked_pow(e as u32) {
+            Some(w) => assert!(matches!(r, Ok((true, v)) if v as i64 == w), "pow(int, n) is the exact power"),
+            None => {
+                witness!(true, "overflow");
+                assert!(r.is_err(), "pow overflow is an error");
+            }
+        }
+    } else {
+        match base.checked_pow(e as u32) {
+            Some(w) => assert!(matches!(r, Ok((false, v)) if v == w), "pow(uint, n) is the exact power"),
+            None => {
+                witness!(true, "overflow");
+                assert!(r.is_err(), "pow overflow is an error");
+            }
+        }
+    }
+}
+
+/// integer base with a double exponent: only a non-negative integral exponent up to
+/// u32::MAX has an integer power; everything else is an error
+pub fn pow_inner_float_exp(signed_base: bool) {
+    use rscel::verif_hooks::verif_funcs::inner::pow as p;
+    let base: u64 = any();
+    let f: f64 = any();
+    let valid = f >= 0.0 && f <= u32::MAX as f64 && f == (f as u32) as f64;
+    // valid exponents above 1 enter the multiplication loop: outside this harness
+    assume(!valid || f <= 1.0);
+    let ok = if signed_base {
+        match p::id(base as i64, f) {
+            Ok(v) => Some(v as u64),
+            Err(e) => {
+                core::mem::forget(e);
+                None
+            }
+        }
+    } else {
+        match p::ud(base, f) {
+            Ok(v) => Some(v),
+            Err(e) => {
+                core::mem::forget(e);
+                None
+            }
+        }
+    };
+    witness!(!valid && f > 0.0 && f < 1.0, "fractional exponent");
+    witness!(f.is_nan(), "NaN exponent");
+    witness!(valid, "exponent 0.0 or 1.0");
+    if valid {
+        let want = if f == 1.0 { base } else { 1 };
+        assert!(ok == Some(want), "x^0.0 == 1 and x^1.0 == x");
+    } else {
+        assert!(ok.is_none(), "an integer power with a negative, fractional, NaN or oversized exponent is an error");
+    }
+}
